@@ -68,5 +68,23 @@ def seed_table():
     return head + "\n".join(rows) + "\n"
 
 out.append(open(os.path.join(ROOT, "design/tail.md")).read().replace("SEEDED_TABLE_PLACEHOLDER", seed_table()))
+def findings_appendix():
+    kf = json.load(open(os.path.join(ROOT, "known_findings.json")))
+    rows = ["\n## Appendix C. Recorded findings and repaired defects (generated from `known_findings.json`)\n",
+            "Genuine defects of grol that are RECORDED rather than repaired (the check prints `KNOWN-FINDING: property=<id> ...` for each "
+            "and exits 0; a failure whose signature is not listed is a violation). The per-property subsections of section 4 discuss them; "
+            "this table is the complete list, by signature.\n",
+            "| property | signature | what fails | witness |", "|---|---|---|---|"]
+    for f in kf.get("findings", []):
+        rows.append("| %s | `%s` | %s | %s |" % (f.get("property", ""), f.get("sig", ""), str(f.get("what", "")).replace("|", "/").replace("\n", " "),
+                                               ("`" + str(f.get("witness", "")).replace("|", "/").replace("\n", " ").replace("`", "'")[:300] + "`") if f.get("witness") else ""))
+    rows.append("\nDefects REPAIRED in `/repo` by a `fix:` commit (a fixed entry suppresses nothing: the check passes on the repaired tree and "
+                "reports the violation again if it returns):\n")
+    rows += ["| property | commit | what failed |", "|---|---|---|"]
+    for f in kf.get("fixed", []):
+        rows.append("| %s | `%s` | %s |" % (f.get("property", ""), f.get("commit", ""), str(f.get("what", "")).replace("|", "/").replace("\n", " ")))
+    return "\n".join(rows) + "\n"
+
+out.append(findings_appendix())
 open(os.path.join(ROOT, "DESIGN.md"), "w").write("".join(out))
 print("DESIGN.md assembled")
